@@ -167,7 +167,7 @@ def p_col(s):
 
 def fmt(idx, c):
     t = [str(idx), "ring", c["op"], "be=" + c["be"], f"n={c['n']}", f"rs={c['rs']}"]
-    for k in ("p", "limb", "nin", "nt", "order", "rcols", "rc", "acols", "ac", "bcols", "bc"):
+    for k in ("p", "limb", "nin", "nt", "order", "scr", "rcols", "rc", "acols", "ac", "bcols", "bc"):
         if k in c:
             t.append(f"{k}={c[k]}")
     for k in ("nouts", "nins", "ps"):
@@ -350,6 +350,16 @@ def gen_cases(ctx):
             g.add(c, ["fft64ref", "ntt120ref"], branch=("even",), vclass="small")
             c = {"op": "big_autom_assign", "n": n, "rs": rs, "p": gg, "r": g.col(n, rs, "small")}
             g.add(c, ["ntt120ref"], branch=("even",), vclass="small")
+            # in-place forms that go through the scratch polynomial: its content is an explicit input (`scr`)
+            for scr in (0, r.range(-9, 9), wrap(r.next(), 64)):
+                c = {"op": "autom_assign", "n": n, "rs": rs, "p": gg, "r": g.col(n, rs, "small"), "scr": scr}
+                g.add(c, ["fft64ref", "ntt120ref"], branch=("even-scr",), vclass="small")
+                c = {"op": "big_autom_assign", "n": n, "rs": rs, "p": gg, "r": g.col(n, rs, "small"), "scr": scr}
+                g.add(c, ["fft64ref"], branch=("even-scr",), vclass="small")
+        for gg in range(1, 2 * n, 2):
+            rs = r.range(1, 3)
+            c = {"op": "autom_assign", "n": n, "rs": rs, "p": gg, "r": g.col(n, rs, "full"), "scr": wrap(r.next(), 64)}
+            g.add(c, branch=("odd-scr",), vclass="full")
 
     # ---- size rule: every (a, b, res) size triple 1..5 for the binary operations
     for op in ["add", "sub", "big_add", "big_sub", "big_add_small", "big_sub_small_a", "big_sub_small_b"]:
